@@ -148,13 +148,13 @@ Proof.
       destruct (qt_unmarshal byts) as [tables n| |] eqn:Eq; [|splits; [split; [reflexivity|intros H; now cbn in H]|discriminate|]|contradiction].
       * destruct (Qok tables n eq_refl) as (Qn & Qc & Ql). rewrite nsub_suffix by lia.
         set (d2 := mkD true [ndrop n byts] (nlen (ndrop n byts)) (Some (ty, w, h)) tables).
-        assert (I2 : Inv0 d2). { split; [unfold d2; cbn; now rewrite app_nil_r|]. intros _. discriminate. }
+        assert (I2 : Inv0 d2). { split; [unfold d2; cbn [dfsize dfrags concat]; now rewrite app_nil_r|]. intros _. discriminate. }
         pose proof (FIN d2 I2) as F. destruct (if negb (pmarker p) then _ else _) as [d' r]. destruct F as (F1 & F2 & F3).
         splits; [assumption|assumption|]. intros Hb HP HB. apply F3. split; [exact I2|].
         unfold d2; cbn [dfsize dqt]. rewrite nlen_ndrop. lia.
       * intros _ _ (_ & B2 & B3 & B4). split; [|discriminate]. split; [split; [reflexivity|intros H; now cbn in H]|cbn; lia].
     + set (d2 := mkD true [byts] (nlen byts) (Some (ty, w, h)) (make_qt q)).
-      assert (I2 : Inv0 d2). { split; [unfold d2; cbn; now rewrite app_nil_r|]. intros _. discriminate. }
+      assert (I2 : Inv0 d2). { split; [unfold d2; cbn [dfsize dfrags concat]; now rewrite app_nil_r|]. intros _. discriminate. }
       pose proof (FIN d2 I2) as F. destruct (if negb (pmarker p) then _ else _) as [d' r]. destruct F as (F1 & F2 & F3).
       splits; [assumption|assumption|]. intros Hb HP HB. apply F3. split; [exact I2|].
       destruct (make_qt_facts q) as [M1 M2]. unfold d2; cbn [dfsize dqt]. lia.
